@@ -131,6 +131,30 @@ def run_case(stream, seed, ctx, params):
                 c.hints['imp_text'] = 'imp:%s=%s' % (','.join(parts), fmt(table[c.id][parts[0]], rng))
             else:
                 c.hints['imp_text'] = ' '.join('imp:%s=%s' % (p, fmt(table[c.id][p], rng)) for p in parts)
+    if mode == 'cards' and len(parts) > 1 and rng.random() < 0.7:
+        # a copy LIKE n BUT … whose importance override is grouped differently from the keywords of cell n
+        # (imp:n,p=1 on the card, imp:n=0 imp:p=0 after BUT, or the other way round): the last value given for a
+        # particle type counts, however the designators are grouped
+        bases = [c for c in d.cells if c.u == 0 and c.fill is None and 'raw' not in c.hints]
+        if bases:
+            b = rng.choice(bases)
+            tab = dict(table[b.id])
+            which = list(parts) if rng.random() < 0.6 else rng.sample(parts, rng.randint(1, len(parts)))
+            v = float(rng.choice([0, 0, 0, 1]))
+            for p_ in which:
+                tab[p_] = v
+            grouped_base = ',' in b.hints.get('imp_text', '')
+            if len(which) > 1 and not grouped_base:
+                ov = 'imp:%s=%s' % (','.join(which), fmt(v, rng))
+            else:
+                ov = ' '.join('imp:%s=%s' % (p_, fmt(v, rng)) for p_ in which)
+            nid_ = max(c.id for c in d.cells) + 1
+            mv = D.Motion([40.0 + rng.choice(G.HALF), 0.0, 0.0], list(D.IDENT))
+            lc = D.Cell(nid_, b.expr, mat=b.mat, rho=b.rho, imp=max(tab.values()), u=0, trcl=mv)
+            lc.hints['raw'] = '%d like %d but trcl=(%s) %s' % (nid_, b.id, D.inline_tr(mv), ov)
+            d.cells.append(lc)
+            table[nid_] = tab
+            on_card.add(nid_)
     text = render_with_imp(d, rng)
     res, cap = C.convert_capture(text, [])
     key = h(text)
@@ -194,8 +218,8 @@ def render_with_imp(d, rng):
     lay = D.Layout(rng)
     out = [d.title]
     for c in d.cells:
-        line = D.render_cell(c, lay, with_imp=False)
-        if 'imp_text' in c.hints:
+        line = c.hints['raw'] if 'raw' in c.hints else D.render_cell(c, lay, with_imp=False)
+        if 'imp_text' in c.hints and 'raw' not in c.hints:
             line += '  ' + c.hints['imp_text']
         out.append(D.wrap_card(line, lay=lay))
     out.append('')
